@@ -121,13 +121,6 @@ def shapes(form) -> dict:
     f5 = [n for n in user_names(form) if TYPO_LIT in n]
     if f5:
         out["F5"] = f5
-    f3x = [n for n in element_names(form) if n.startswith("xmlns:")]
-    if f3x:
-        out["F3x"] = f3x
-    ns = settings_row(form).get("namespaces") or ""
-    f2b = [t for t in ns.split() if _reserved_uri_decl(t)]
-    if f2b:
-        out["F2b"] = f2b
     return out
 
 
@@ -339,6 +332,10 @@ def general_form(rng: random.Random, big=False) -> dict:
     if rng.random() < 0.06:
         st["attribute::xmlns:loc"] = "urn:local"
         st["attribute::loc:attr"] = text()
+    if rng.random() < 0.12:
+        # settings rows accept instance:: columns like any section: attributes of the primary instance root
+        for k in rng.sample(["id", "version", "xmlns", "foo", "odk:prefix", "jr:x", "custom-attr"], rng.randint(1, 2)):
+            st["instance::" + k] = rng.choice(["hijack", "0", "urn:i", text()])
     if langs and rng.random() < 0.4:
         st["default_language"] = rng.choice(langs)
     if st:
@@ -347,6 +344,41 @@ def general_form(rng: random.Random, big=False) -> dict:
         form["entities"] = [{"dataset": rng.choice(["trees", "people"]), "label": "'x'"}]
     if rng.random() < 0.6:
         inject_entities(rng, form)
+    if rng.random() < 0.25:
+        inject_local_ns(rng, form)
+    return form
+
+
+def inject_local_ns(rng, form):
+    """a namespace prefix declared on ONE element through a custom column (`instance::xmlns:p`, `bind::xmlns:p`,
+    `body::xmlns:p`) and used on the same element (fine), inside the declaring group (fine), or on a
+    different, later, non-descendant element / on another element of the same row (not in scope there: the
+    converter has to reject the form; accepting it gives an unbound prefix)"""
+    sv = form["survey"]
+    idx = [i for i, r in enumerate(sv) if r.get("name")]
+    if not idx:
+        return form
+    p = rng.choice(["lp", "z9", "loc-1", "é"])
+    uri = rng.choice(["urn:local", "http://l.example/ns"])
+    i = rng.choice(idx)
+    r1 = sv[i]
+    kind = rng.choice(["instance", "bind", "body"])
+    if kind == "body" and r1["type"].split(" ")[0] in ("hidden", "calculate", "start", "end", "today", "deviceid", "username",
+                                                       "phonenumber", "email", "xml-external", "csv-external", "background-audio"):
+        kind = "instance"
+    r1[f"{kind}::xmlns:{p}"] = uri
+    where = rng.choice(["same", "same", "child", "later", "later", "other-kind", "earlier"])
+    if where == "same":
+        r1[f"{kind}::{p}:a"] = "v"
+    elif where == "child" and r1["type"].startswith("begin") and i + 1 < len(sv) and sv[i + 1].get("name"):
+        sv[i + 1][f"{kind}::{p}:a"] = "v"          # descendant element of the same kind of tree (instance / body)
+    elif where == "later" and [j for j in idx if j > i]:
+        sv[rng.choice([j for j in idx if j > i])][f"{rng.choice(['instance', 'bind'])}::{p}:a"] = "v"
+    elif where == "earlier" and [j for j in idx if j < i]:
+        sv[rng.choice([j for j in idx if j < i])][f"{rng.choice(['instance', 'bind'])}::{p}:a"] = "v"
+    else:
+        other = rng.choice([k for k in ("instance", "bind") if k != kind] or ["bind"])
+        r1[f"{other}::{p}:a"] = "v"                # declared on the instance node, used on the row's <bind> (or vice versa)
     return form
 
 
@@ -425,6 +457,9 @@ def name_probe_form(rng: random.Random) -> dict:
 # ------------------------------------------------------------------ random DOM trees for validate_xml_document
 
 
+SEEN_PREFIXES: list = []   # prefixes declared on any element of the tree under construction (document order)
+
+
 def dom_name(rng, prefixes):
     r = rng.random()
     if r < 0.45:
@@ -449,6 +484,8 @@ def random_named_tree(rng, depth=0, prefixes=None):
     """DOM tree (driver encoding) whose tags / attribute names / namespace declarations / values probe
     what validate_xml_document has to decide; attribute local names are kept distinct so that the
     DOM built by setAttribute has exactly these attributes"""
+    if depth == 0:
+        del SEEN_PREFIXES[:]
     prefixes = list(prefixes or [])
     attrs, locals_ = [], set()
     def add(k, v):
@@ -462,6 +499,7 @@ def random_named_tree(rng, depth=0, prefixes=None):
         add("xmlns:" + p, v)
         if v and p not in ("xml", "xmlns"):
             prefixes.append(p)
+            SEEN_PREFIXES.append(p)
     for _ in range(rng.choice([0, 1, 1, 2, 3])):
         add(dom_name(rng, prefixes), dom_value(rng))
     kids = []
